@@ -344,7 +344,7 @@ def dialect_matchers_wf(tier, seed):
                                    "kind": "precondition", "status": "failed", "function": "sqlfluff.core.parser.lexer:PyLexer.lex",
                                    "detail": {"matcher": repr(sub)}, "reproduced": True})
         obligations += 1
-        probes = ["a", " ", "\n", "\t", "\x00", "\x7f", "é", "€", "\U0001F600", "`", "$", "@", "#", "\\", "~", "^", "?", "a b", "'", '"']
+        probes = ["\r", "a\rb", "\x0b", "\x0c", "\x85", "\u2028", "\xa0", "a", " ", "\n", "\t", "\x00", "\x7f", "é", "€", "\U0001F600", "`", "$", "@", "#", "\\", "~", "^", "?", "a b", "'", '"']
         bad = [p for p in probes if not any(m.match(p).elements for m in ms)]
         if bad:
             failed.append({"name": f"C01/{d.label}/last-resort-total", "id": f"C01/{d.label}/last-resort-total", "kind": "precondition",
@@ -358,9 +358,12 @@ def dialect_matchers_wf(tier, seed):
             "backend": "exhaustive evaluation of preconditions on dialect data"}
 
 
-EXTRA = [dialect_matchers_wf]
+from . import c01_bounded as _c01b  # noqa: E402
 
-MUTANTS = [
+EXTRA = [dialect_matchers_wf] + list(getattr(_c01b, 'EXTRA', []))
+BOUNDED = list(_c01b.BOUNDED)
+
+MUTANTS = list(_c01b.MUTANTS) + [
     ("trim_reorder_regression", "sqlfluff/core/parser/lexer.py", "                    if content_buff:\n                        elem_buff.append(LexedElement(content_buff, self))\n                        content_buff = \"\"\n", ""),
     ("trim_drops_tail", "sqlfluff/core/parser/lexer.py", "        if content_buff + str_buff:\n            elem_buff.append(\n                LexedElement(content_buff + str_buff, self),\n            )", "        if str_buff:\n            elem_buff.append(\n                LexedElement(str_buff, self),\n            )"),
     ("trim_mid_loses_char", "sqlfluff/core/parser/lexer.py", "                    content_buff += str_buff[: trim_pos[1]]\n                    str_buff = str_buff[trim_pos[1] :]", "                    content_buff += str_buff[: trim_pos[0]]\n                    str_buff = str_buff[trim_pos[1] :]"),
